@@ -131,9 +131,12 @@ def run(ctx):
     for v in (MO_ABSENT, MO_OCCS, MO_NOOCCS):
         ops.append(("plain", "mo", v))
 
-    ctx.rule("R4", "typestate invariants J1-J4 hold on every reachable abstract state", "a history of assignments after which charge, electron count and core charges disagree, or a failed assignment that changed the object")
+    ctx.rule("R4", "typestate invariants J1-J5 hold on every reachable abstract state", "a history of assignments after which charge, electron count and core charges disagree, or a failed assignment that changed the object")
     ctx.rule("R2", "orbitals determine electron count and spin polarisation", "nelec/spinpol differ from the orbitals, or can be assigned although orbitals are present")
     ctx.rule("R3", "charge is derived when both core charges and electron count are known", "charge != core charges - electrons")
+    pi_func = ci.methods.get("__attrs_post_init__")
+    if pi_func is None:
+        raise AnalysisError("IOData.__attrs_post_init__ not found")
     seen = set(init_states)
     todo = list(init_states)
     trans = 0
@@ -149,6 +152,14 @@ def run(ctx):
     getter_return = {}
     while todo:
         st = todo.pop()
+        # J5: the object can be rebuilt from its own fields (attrs.evolve / copy by constructor, used by every prepare_*
+        # conversion): __attrs_post_init__ on the state does not raise and gives an observably equal object
+        try:
+            rebuilt = ts.call_method(st, "__attrs_post_init__")
+            if canon(rebuilt) != canon(st):
+                flag("R4", "J5 copy differs", "J5 violated: rebuilding the object from its own fields (attrs.evolve) gives an object with other charge / electron count / core charges", pi_func, pi_func.node, st)
+        except Raised as r5:
+            flag("R4", "J5 copy raises", f"J5 violated: an object in a reachable state cannot be copied: attrs.evolve / IOData(**fields) raises {r5.cls} in __attrs_post_init__ (every prepare_* conversion of such an object fails)", pi_func, r5.node, st)
         # J1 on the state itself
         if ts.get(st, "_atcorenums") == SET and ts.get(st, "_charge") == SET:
             flag("R4", "J1", "J1 violated: core charges are known but a stored charge is kept (two authoritative sources)", ci.setters["atcorenums"], ci.setters["atcorenums"].node, st)
@@ -228,7 +239,7 @@ def run(ctx):
                 seen.add(st2)
                 todo.append(st2)
     if not any(k[0] == "R4" for k in viol):
-        ctx.ok("R4", f"J1-J4 hold on {len(seen)} reachable abstract states, {trans} operation evaluations, {nraise} raising assignments, {nfail} rejected constructions", ci.module.relpath)
+        ctx.ok("R4", f"J1-J5 hold on {len(seen)} reachable abstract states, {trans} operation evaluations, {nraise} raising assignments, {nfail} rejected constructions", ci.module.relpath)
     if not any(k[0] == "R2" for k in viol):
         ctx.ok("R2", "nelec/spinpol: mo-derived when orbitals present, stored otherwise; setters raise TypeError with orbitals", ci.module.relpath)
     if not any(k[0] == "R3" for k in viol):
@@ -252,23 +263,49 @@ def run(ctx):
             ctx.violate("R2", f"{nm} setter does not raise TypeError when orbitals are present", s_, s_.node, construct=f"{nm} setter raise")
 
     # ------------------------------------------------------------------ R5
-    ctx.rule("R5", "__attrs_post_init__ replays every hidden field through its setter", "a constructor argument bypasses the consistency logic")
+    ctx.rule("R5", "constructor arguments go through the consistency logic (typestate: construction = assignment through the setters)", "a constructor argument bypasses the consistency logic: charge, electron count and core charges given together disagree afterwards")
     pi = ci.methods.get("__attrs_post_init__")
     if pi is None:
         ctx.violate("R5", "IOData has no __attrs_post_init__", relpath=ci.module.relpath, function=ci.qualname, construct="__attrs_post_init__")
     else:
-        for h in HIDDEN:
-            pub = PUBLIC[h]
-            okk = False
-            for st in pi.body:
-                if isinstance(st, ast.If) and src_of(st.test) == f"self.{h} is not None":
-                    for s2 in st.body:
-                        if isinstance(s2, ast.Assign) and src_of(s2.targets[0]) == f"self.{pub}" and src_of(s2.value) == f"self.{h}":
-                            okk = True
-            if okk:
-                ctx.ok("R5", f"{h} replayed through the `{pub}` setter", f"{pi.module.relpath}:{pi.lineno}")
-            else:
-                ctx.violate("R5", f"{h} given to the constructor is not replayed through the `{pub}` setter", pi, pi.node, construct=f"replay {h}")
+        # without orbitals: the object built by the constructor from hidden values equals the object obtained by
+        # assigning the same values through the public setters, in the constructor's order, to an empty object
+        nok = nbad = 0
+        for vals in product([NONE, SET], repeat=5):
+            st0 = ts.make(_atcorenums=vals[0], _charge=vals[1], _nelec=vals[2], _spinpol=vals[3], atnums=vals[4], mo=MO_ABSENT)
+            try:
+                built = ts.call_method(st0, "__attrs_post_init__")
+            except Raised:
+                built = None
+            ref = ts.make(_atcorenums=NONE, _charge=NONE, _nelec=NONE, _spinpol=NONE, atnums=vals[4], mo=MO_ABSENT)
+            try:
+                for h, v in zip(("_atcorenums", "_charge", "_nelec", "_spinpol"), vals[:4]):
+                    if v == SET:
+                        ref = ts.call_setter(ref, PUBLIC[h], SET)
+            except Raised:
+                ref = None
+            if (built is None) != (ref is None) or (built is not None and canon(built) != canon(ref)):
+                nbad += 1
+                given = [h for h, v in zip(("_atcorenums", "_charge", "_nelec", "_spinpol"), vals[:4]) if v == SET]
+                ctx.violate("R5", f"IOData({', '.join(PUBLIC[h] + '=...' for h in given)}) gives {'an error' if built is None else dict(zip(ts.vars, canon(built)))}, assigning the same values through the setters gives {'an error' if ref is None else dict(zip(ts.vars, canon(ref)))}: the constructor bypasses the consistency logic", pi, pi.node, construct=f"construction with {given} differs from assignment")
+                break
+            nok += 1
+        if not nbad:
+            ctx.ok("R5", f"{nok} combinations of constructor arguments (no orbitals): construction and assignment through the setters give the same object", f"{pi.module.relpath}:{pi.lineno}")
+        # with orbitals: stored values are ignored by the getters (R2) and construction never fails because of them (J5)
+        nmo = 0
+        for vals in product([NONE, SET], repeat=5):
+            for mo_ in (MO_OCCS, MO_NOOCCS):
+                st0 = ts.make(_atcorenums=vals[0], _charge=vals[1], _nelec=vals[2], _spinpol=vals[3], atnums=vals[4], mo=mo_)
+                try:
+                    ts.call_method(st0, "__attrs_post_init__")
+                    nmo += 1
+                except Raised as r_:
+                    if vals[0] == SET and vals[1] == SET:
+                        continue  # core charges and charge given together with orbitals: contradictory input
+                    ctx.violate("R5", f"an object holding orbitals and stored values {dict(zip(('_atcorenums', '_charge', '_nelec', '_spinpol', 'atnums'), vals))} cannot be constructed ({r_.cls}): it cannot be copied with attrs.evolve either", pi, r_.node, construct="construction with orbitals raises")
+                    break
+        ctx.ok("R5", f"{nmo} combinations with orbitals are constructible (copyable)", f"{pi.module.relpath}:{pi.lineno}")
 
     # the shape validator itself (shared with C07-R5 / C12-R1): only `None` is a wildcard, 0 is a size
     from .c07 import check_validate_shape
